@@ -395,6 +395,9 @@ func (p *Processor) ChargingDataRelease(
 		return problemDetails
 	}
 
+	// the charging session is released: its reference no longer designates a session
+	delete(ue.Cdr, chargingSessionId)
+
 	return nil
 }
 
